@@ -12,8 +12,18 @@ state; every transition compares the real object with the model, tries the
 documented refusals, reads every property through every copying accessor and
 mutates what was returned, and re-checks all operands of earlier operations
 that are documented to return new objects.
+
+Bounds.  quick: every history of length <= 2 over OPS; each of them extended by
+every enabled operation of OPS minus VARIANTS_NOT_LAST (second instances of an
+argument combination); the states of depth 3 get the accessor battery with one
+index of each kind (IDX_LEAN), without the getters that are literal duplicates of or
+plain delegations to another one, and without the deepcopy(System) probe.  thorough: every history of length <= 3 over
+OPS + EXTRA_THOROUGH with the full battery, and length <= 4 over the core
+alphabet.  A replay always uses the full battery.
 """
 import copy
+import functools
+import os
 import sys
 import warnings
 from collections import OrderedDict
@@ -35,7 +45,10 @@ chk = Check('C06', 'model_checking',
             'states are distinct by the reference-model state (per-atom records with hidden ids, property '
             'dtypes/shapes in order, stored symbols/masses, pbc); every transition is checked against the '
             'record-per-atom model, the refusal list, all copying accessors (values + np.shares_memory + mutation of the '
-            'returned object) and all retired operands')
+            'returned object) and all retired operands.  Quick tier: depth <= 2 complete over the alphabet, the third '
+            'operation ranges over its representative part (every kind / key / value form / route / index kind kept, '
+            'second instances of a combination dropped) and depth-3 states are read back with one index of each kind; '
+            'thorough tier: depth 3 complete with the full battery plus depth 4 over a core alphabet (coverage.bound)')
 chk.assumptions = ['all written values are dyadic rationals and the box is dyadic, so relative->Cartesian arithmetic is '
                    'exact and storage is compared exactly; scaled reads (Cartesian->relative) are compared to an exact '
                    'Fraction oracle to 1e-12',
@@ -65,11 +78,13 @@ def _inv3(m):
 _Vinv = _inv3(_Vf)
 
 
+@functools.lru_cache(maxsize=None)
 def rel_to_cart(rel):
     """model arithmetic: cart = rel . vects + origin  (exact for the dyadic menus)"""
     return tuple(float(sum(Fraction(rel[r]) * _Vf[r][c] for r in range(3)) + Fraction(ORIGIN[c])) for c in range(3))
 
 
+@functools.lru_cache(maxsize=None)
 def cart_to_rel(cart):
     d = [Fraction(cart[c]) - Fraction(ORIGIN[c]) for c in range(3)]
     return tuple(float(sum(d[r] * _Vinv[r][c] for r in range(3))) for c in range(3))
@@ -237,12 +252,15 @@ def operand_model(kind, base_ids):
     elif kind == 'B1':    # a single atom with only the mandatory properties
         m.props = OrderedDict([('atype', ('<i8', ())), ('pos', ('<f8', (3,)))])
         m.recs = [{'_id': base_ids[0], 'atype': 2, 'pos': (0.5, 0.25, 0.75)}]
+    elif kind == 'B3':    # a single atom with an integer property the host does not have
+        m.props = OrderedDict([('atype', ('<i8', ())), ('pos', ('<f8', (3,))), ('j', ('<i8', ()))])
+        m.recs = [{'_id': base_ids[0], 'atype': 1, 'pos': (0.25, 0.25, 0.25), 'j': 7}]
     else:
         raise KeyError(kind)
     return m
 
 
-OPERAND_N = {'B2': 2, 'B1': 1}
+OPERAND_N = {'B2': 2, 'B1': 1, 'B3': 1}
 
 
 # --------------------------------------------------------------------------
@@ -322,6 +340,7 @@ def static_ops():
     o += [{'op': 'extend', 'name': 'extend-int', 'via': 'atoms', 'what': 2},
           {'op': 'extend', 'name': 'atoms_extend-int', 'via': 'system', 'what': 2, 'scale': False, 'symbols': None},
           {'op': 'extend', 'name': 'extend-B2', 'via': 'atoms', 'what': 'B2'},
+          {'op': 'extend', 'name': 'extend-B3', 'via': 'atoms', 'what': 'B3'},
           {'op': 'extend', 'name': 'atoms_extend-B2', 'via': 'system', 'what': 'B2', 'scale': False, 'symbols': None},
           {'op': 'extend', 'name': 'atoms_extend-B1-scaled', 'via': 'system', 'what': 'B1', 'scale': True, 'symbols': None},
           {'op': 'extend', 'name': 'atoms_extend-B2-scaled-symbols', 'via': 'system', 'what': 'B2', 'scale': True,
@@ -384,6 +403,31 @@ CORE_NAMES = {'set-a-scalar-attr', 'set-v-len1-attr', 'set-atype-full-view', 'se
               'extend-int', 'atoms_extend-B2', 'atoms_extend-B1-scaled',
               'getitem-sl', 'atoms_ix-get-li', 'atoms_ix-get-bm', 'atoms_ix-get-im1',
               'setitem-sl', 'atoms_ix-set-bm', 'symbols-str', 'masses-natypes', 'read-masses'}
+
+
+# Quick tier only: argument variants that are NOT used as the third (last) operation of a depth-3 history.  They
+# stay in the alphabet for the first two positions (depth <= 2 is complete over OPS).  What is left for the last
+# position keeps every kind of operation, every key (dtype / trailing shape / new-vs-existing), every value form
+# (scalar, length-1, full), every route (attr, view, prop, atoms_prop) and every kind of index (int, -1, slice,
+# list, mask); what is dropped is a second instance of a (kind, form, route, index-kind) combination already there.
+VARIANTS_NOT_LAST = {
+    'set-a-len1-view', 'set-a-full-attr', 'set-v-len1-prop', 'set-k-full-attr', 'set-atype-len1-prop',
+    'set-pos-len1-view', 'set-n-len1-view',
+    'iset-a-i0-rows', 'iset-a-im2-rows', 'iset-v-i0-rows', 'iset-v-li-rows', 'iset-v-bm-rows', 'iset-k-im1-rows',
+    'iset-pos-im1-rows-scaled',
+    'patype-list-a', 'patype-one-a',
+    'atoms_ix-get-i0', 'atoms_ix-get-im1', 'atoms_ix-get-bm',
+    'setitem-i0',
+    'masses-float', 'pbc',
+    'read-symbols', 'read-masses',       # as a last operation these are what check() itself does first in every state
+}
+assert VARIANTS_NOT_LAST <= {op['name'] for op in OPS}
+TRIM_LAST = 0        # history length from which ops() trims (0 = never); set in __main__ for the quick tier
+# accessor battery: indices read back in every state.  A state of depth 3 of the quick tier is read with one index
+# of each kind (int -1 -- the special case of Atoms.__intslice --, slice, list); boolean mask and the other ints are
+# read in every state of depth <= 2 (and everywhere in the thorough tier and in replays).
+IDX_LEAN = ['im1', 'sl', 'li']
+LEAN_FROM = 0        # history length from which check() uses IDX_LEAN (0 = never)
 
 
 def trail_of(m, key):
@@ -573,7 +617,9 @@ def apply(st, op):
         index, rownums, kind = resolve(op['idx'], n)
         m = len(rownums)
         Bm = Model()
-        Bm.props = OrderedDict(M.props)
+        # the operand carries the same properties in another order (assignment is by name, not by position)
+        user = [key for key in M.props if key not in ('atype', 'pos')]
+        Bm.props = OrderedDict((key, M.props[key]) for key in ['atype', 'pos'] + user[::-1])
         ids = M.fresh_ids(m)
         for j in range(m):
             rec = {'_id': ids[j]}
@@ -630,7 +676,13 @@ def build(hist):
     st.model = initial_model()
     st.retired = []
     st.dead = None
-    st.sys = System(atoms=atoms_from_model(st.model), box=new_box(), symbols=['Al'])
+    st.depth = len(hist)
+    try:
+        st.sys = System(atoms=atoms_from_model(st.model), box=new_box(), symbols=['Al'])
+    except Exception as e:          # the initial objects cannot even be made
+        st.sys = None
+        st.dead = ('initial', '%s: %s' % (type(e).__name__, e), -1)
+        return st
     for i, op in enumerate(hist):
         try:
             apply(st, op)
@@ -649,7 +701,11 @@ def canon(st):
 def ops(st):
     if st.dead:
         return []
-    return [op for op in ACTIVE_OPS if enabled(op, st.model)]
+    lst = [op for op in ACTIVE_OPS if enabled(op, st.model)]
+    if TRIM_LAST and st.depth >= TRIM_LAST:
+        # quick tier: the last operation of a longest history comes from the representative sub-alphabet
+        lst = [op for op in lst if op['name'] not in VARIANTS_NOT_LAST]
+    return lst
 
 
 # --------------------------------------------------------------------------
@@ -739,6 +795,18 @@ def scribble(arr):
 
 
 def check(hist, st):
+    """invariant + model comparison + accessor battery of one state; an exception escaping from a read, a refused
+    write or a copy is a failure of that state (it must not abort the search)"""
+    try:
+        return _check(hist, st)
+    except Exception as e:
+        import traceback
+        return [Fail(key='exception:%s@%s' % (type(e).__name__, hist[-1]['name'] if hist else 'initial'),
+                     msg='unexpected %s while checking the state: %s' % (type(e).__name__, e),
+                     traceback=traceback.format_exc(limit=6))]
+
+
+def _check(hist, st):
     tag = hist[-1]['name'] if hist else 'initial'
     if st.dead:
         return [Fail(key='raised@%s' % st.dead[0], msg='operation %s inside the quantifier raised %s' % (st.dead[0], st.dead[1]))]
@@ -765,6 +833,8 @@ def check(hist, st):
     if out:
         return out
     n, nt = M.n, M.copy().natypes()
+    lean = bool(LEAN_FROM) and len(hist) >= LEAN_FROM
+    idx_check = IDX_LEAN if lean else IDX_CHECK
     # ---- 3. documented refusals: must raise, must not change anything
     B_other = Atoms(atype=[1], pos=[[0.0, 0.0, 0.0]])
 
@@ -836,6 +906,8 @@ def check(hist, st):
         exp = [tolist(r[key]) for r in M.recs]
         for getter, gname in ((lambda: A.prop(key), 'prop'), (lambda: S.atoms_prop(key), 'atoms_prop'),
                               (lambda: A.prop(key=key, index=None), 'prop-kw')):
+            if lean and gname == 'prop-kw':      # same call as 'prop', spelled with keywords
+                continue
             got = getter()
             nacc += 1
             if not isinstance(got, np.ndarray) or got.dtype != store.dtype or got.tolist() != exp:
@@ -843,13 +915,15 @@ def check(hist, st):
             elif np.shares_memory(got, store):
                 bad('get-alias:' + gname, '%s(%r) shares memory with storage' % (gname, key))
             scribble(got)
-        for idx in IDX_CHECK:
+        for idx in idx_check:
             r = resolve(idx, n)
             if r is None:
                 continue
             index, rownums, kind = r
             e = exp[rownums[0]] if kind == 'int' else [exp[i] for i in rownums]
             for getter, gname in ((lambda: A.prop(key, index), 'prop-index'), (lambda: S.atoms_prop(key, index=index), 'atoms_prop-index')):
+                if lean and gname == 'atoms_prop-index':     # plain delegation to Atoms.prop(key, index)
+                    continue
                 got = getter()
                 nacc += 1
                 g = got.tolist() if isinstance(got, (np.ndarray, np.generic)) else got
@@ -867,7 +941,7 @@ def check(hist, st):
     elif np.shares_memory(got, A.view['pos']):
         bad('get-alias:atoms_prop-scaled', 'scaled read shares memory with storage')
     scribble(got)
-    for idx in IDX_CHECK:
+    for idx in idx_check:
         r = resolve(idx, n)
         if r is None:
             continue
@@ -884,6 +958,8 @@ def check(hist, st):
         for getter, gname, scaled in ((lambda: A.prop(index=index), 'prop(index)', False),
                                       (lambda: S.atoms_prop(index=index), 'atoms_prop(index)', False),
                                       (lambda: S.atoms_prop(index=index, scale=True), 'atoms_prop(index,scaled)', True)):
+            if lean and gname == 'atoms_prop(index)':      # plain delegation to Atoms.prop(index=index)
+                continue
             C = getter()
             nacc += 1
             Mc = Model()
@@ -927,6 +1003,8 @@ def check(hist, st):
     chk.note('accessor-reads', nacc)
     # tables
     for scale in (None, False, True):
+        if lean and scale is False:                # same table as Atoms.df()
+            continue
         df = A.df() if scale is None else S.atoms_df(scale=scale)
         cols, data = [], []
         for key, (dtype, trail) in M.props.items():
@@ -943,13 +1021,16 @@ def check(hist, st):
         if list(df.columns) != cols or len(df) != n:
             bad('df-shape', 'table has columns %r and %d rows' % (list(df.columns), len(df)), expected=cols)
         else:
-            for c, d in zip(cols, data):
-                if not close(df[c].to_numpy(), d):
-                    bad('df-values', 'column %s of the table differs from the model' % c)
-                    break
-    # deep copy: equal, independent
-    D = copy.deepcopy(S)
-    if D.atoms is A or not cmp_system(D, M, 'deepcopy:', out, tag):
+            tab = df.to_numpy(dtype=float)          # (natoms, ncolumns)
+            exp_tab = np.array(data, dtype=float).T
+            if not close(tab, exp_tab):
+                c = [cols[j] for j in range(len(cols)) if not close(tab[:, j], exp_tab[:, j])]
+                bad('df-values', 'column(s) %s of the table differ from the model' % c)
+    # deep copy: equal, independent (every state of depth <= 2; thorough: every state)
+    D = None if lean else copy.deepcopy(S)
+    if D is None:
+        pass
+    elif D.atoms is A or not cmp_system(D, M, 'deepcopy:', out, tag):
         bad('deepcopy', 'deepcopy(System) is not an equal independent object')
     else:
         for key in M.props:
@@ -983,8 +1064,12 @@ def run_bfs(oplist, depth, expand_all=False, cap=None):
 
 if __name__ == '__main__':
     if not THOROUGH:
+        if not os.environ.get('VERIF_REPLAY'):       # a replay always gets the full battery
+            TRIM_LAST, LEAN_FROM = 2, 3
         cov = run_bfs(OPS, 3)
-        cov['bound'] = 'all histories of depth <= 3 over %d operation instances (dedup on the model state)' % len(OPS)
+        cov['bound'] = ('all histories of depth <= 2 over %d operation instances, each extended by every enabled one of the '
+                        '%d representative instances as third operation (dedup on the model state); states of depth 3 '
+                        'are read back with one index of each kind' % (len(OPS), len(OPS) - len(VARIANTS_NOT_LAST)))
     else:
         full = OPS + EXTRA_THOROUGH
         cov = run_bfs(full, 3)
